@@ -240,10 +240,11 @@ def compatible_desc(a, b):
     return True
 
 
-def judge_headers(headers, col=None):
-    """headers: list of (params, anns, ret, defaults)."""
+def judge_headers(headers, col=None, future=False):
+    """headers: list of (params, anns, ret, defaults).  With future=True the module starts with
+    `from __future__ import annotations`, so the function objects carry their annotations as strings."""
     fails = []
-    lines = HEADER.rstrip("\n").split("\n")
+    lines = (["from __future__ import annotations"] if future else []) + HEADER.rstrip("\n").split("\n")
     for i, (params, anns, ret, defaults) in enumerate(headers):
         lines.append(typed_header(params, anns, ret, f"h{i}", defaults))
         lines.append(f"def outer{i}():")
@@ -284,10 +285,11 @@ def judge_headers(headers, col=None):
                 diff = next((x, y) for x, y in zip(a + [None] * 9, b + [None] * 9) if x != y)
                 field = "count" if diff[0] is None or diff[1] is None else ["name", "kind", "default", "annotation"][
                     next(k for k in range(4) if diff[0][k] != diff[1][k])]
-                fails.append((f"signature-differs|{field}|{(diff[0] or diff[1])[1]}",
-                              f"`{text}`: from the function object {a}, from the def node {b}", headers[i]))
+                fails.append((f"signature-differs|{field}|{(diff[0] or diff[1])[1]}" + ("|future" if future else ""),
+                              f"`{text}`{' (module with future annotations)' if future else ''}: from the function object {a}, from the def node {b}", headers[i]))
             elif ra != rb:
-                fails.append((f"signature-differs|return", f"`{text}`: return from the function object {ra}, from the def node {rb}", headers[i]))
+                fails.append((f"signature-differs|return" + ("|future" if future else ""),
+                              f"`{text}`: return from the function object {ra}, from the def node {rb}", headers[i]))
         return fails
     finally:
         sut.forget_module(res.module)
@@ -296,7 +298,8 @@ def judge_headers(headers, col=None):
 @st.composite
 def header_strategy(draw):
     params = draw(st.sampled_from([p for p in c05.signatures(4) if p]))
-    anns = [draw(st.sampled_from(ANN + [None])) for _ in params]
+    extra = {"va": ["Unpack[Tuple[int, str]]", "Unpack[Tuple[int, ...]]", "Unpack[tuple[str]]"], "vk": ["Unpack[TDk]"]}
+    anns = [draw(st.sampled_from(ANN + [None] + extra.get(k, []) * 2)) for k, _, _ in params]
     defaults = [draw(st.sampled_from(["0", "None", '"d"', "()", "..."])) for _ in params]
     ret = draw(st.sampled_from(ANN + [None, "None"]))
     return params, anns, ret, defaults
@@ -555,8 +558,9 @@ def run_shard(spec):
         def make_h():
             @given(st.lists(header_strategy(), min_size=40, max_size=40))
             def t(headers):
-                for key, what, h in judge_headers(headers, col):
-                    col.fail(key, what, {"header": [[list(p) for p in h[0]], h[1], h[2], h[3]]})
+                for future in (False, True):
+                    for key, what, h in judge_headers(headers, col, future=future):
+                        col.fail(key, what, {"header": [[list(p) for p in h[0]], h[1], h[2], h[3]], "future": future})
             return t
         runner.drive(col, make_h, seed, spec["modules"], shrink=False)
         return col.result()
@@ -586,7 +590,7 @@ def replay_all(case):
         fails = judge_annotations([case["type"]])
     elif "header" in case:
         h = case["header"]
-        fails = judge_headers([([tuple(p) for p in h[0]], h[1], h[2], h[3])])
+        fails = judge_headers([([tuple(p) for p in h[0]], h[1], h[2], h[3])], future=bool(case.get("future")))
     else:
         items = []
         for c, calls in case["items"]:
